@@ -129,3 +129,49 @@ fn collision_resistance_constants_bounded() {
     check("Rp62_248", <Rp62_248 as Hasher>::COLLISION_RESISTANCE, 4 * <f62::BaseElement as StarkField>::MODULUS_BITS / 2);
     println!("NB-RESULT name=collision_resistance_constants_bounded cases={cases}");
 }
+
+// ProofOptions::new accepts exactly the documented parameter ranges (1..=255 queries, blowup a power of two in 2..=128, grinding
+// <= 32, FRI folding factor in {2, 4, 8, 16}, FRI remainder degree one less than a power of two and <= 255) and refuses - panics,
+// as documented - everything else; what it accepts is stored unchanged (the fields are bytes: a looser bound would wrap).
+#[test]
+fn proof_options_constructor_bounded() {
+    std::panic::set_hook(Box::new(|_| {}));
+    let mut cases = 0u64;
+    let qs = [0usize, 1, 2, 128, 254, 255, 256, 257, 511, 512];
+    let bs = [0usize, 1, 2, 3, 4, 6, 8, 64, 127, 128, 129, 256, 512];
+    let gs = [0u32, 1, 31, 32, 33, 64, 255, 256];
+    let fs = [0usize, 1, 2, 3, 4, 6, 8, 16, 17, 32, 256];
+    let rs = [0usize, 1, 2, 3, 5, 7, 127, 254, 255, 256, 511];
+    for &q in &qs {
+        for &b in &bs {
+            for &g in &gs {
+                for &ff in &fs {
+                    for &r in &rs {
+                        cases += 1;
+                        let valid = (1..=255).contains(&q) && b.is_power_of_two() && (2..=128).contains(&b) && g <= 32
+                            && [2usize, 4, 8, 16].contains(&ff) && (r + 1).is_power_of_two() && r <= 255;
+                        match std::panic::catch_unwind(|| ProofOptions::new(q, b, g, FieldExtension::None, ff, r)) {
+                            Ok(o) => {
+                                if !valid {
+                                    fail(format!("ProofOptions::new({q}, {b}, {g}, _, {ff}, {r}) is accepted"));
+                                }
+                                let fo = o.to_fri_options();
+                                if o.num_queries() != q || o.blowup_factor() != b || o.grinding_factor() != g || fo.folding_factor() != ff
+                                    || fo.remainder_max_degree() != r || fo.blowup_factor() != b
+                                {
+                                    fail(format!("ProofOptions::new({q}, {b}, {g}, _, {ff}, {r}) stores other values: {o:?}"));
+                                }
+                            },
+                            Err(_) => {
+                                if valid {
+                                    fail(format!("ProofOptions::new({q}, {b}, {g}, _, {ff}, {r}) is refused"));
+                                }
+                            },
+                        }
+                    }
+                }
+            }
+        }
+    }
+    println!("NB-RESULT name=proof_options_constructor_bounded cases={cases}");
+}
